@@ -92,5 +92,343 @@ def translate(ctx):
     ctx.extra["frozenlist_overrides"] = len(rows)
 
 
+
+# ====================================================================== tie (T-run)
+PRELUDE = (
+    "from guppylang.std.quantum import qubit, h, measure, discard, discard_array\n"
+    "@guppy.struct\nclass SQ:\n    q: qubit\n    n: int\n"
+    "@guppy\ndef happly(qs: array[qubit, 2]) -> None:\n    h(qs[0])\n"
+    "@guppy\ndef eat2(qs: array[qubit, 2] @owned) -> None:\n    discard_array(qs)\n"
+)
+
+
+class Gen:
+    """Generates a comptime body together with its abstraction to model ops."""
+
+    def __init__(self, rng):
+        self.rng = rng
+        self.ops = []       # model ops
+        self.n = 0          # next model id
+        self.env = {}       # qubit-valued Python expression -> model id
+        self.lists = {}     # list name -> frozen?
+        self.structs = {}   # struct name -> frozen?
+        self.params = []
+        self.body = []
+        self.end = []       # closures run at the end (borrowed inputs), in parameter order
+        self.fresh = 0
+        self.touched = False
+        self.used = set()   # generator-side guess of consumed ids (only steers the distribution)
+
+    def create(self, c, d):
+        self.ops.append(f"c{int(c)}{int(d)}")
+        self.n += 1
+        return self.n - 1
+
+    def use(self, i):
+        self.ops.append(f"u{i}")
+        self.used.add(i)
+
+    # ---- parameters
+    def add_param(self, kind):
+        if kind == "qo":
+            nm = f"qo{len(self.params)}"
+            self.params.append(f"{nm}: qubit @owned")
+            self.env[nm] = self.create(0, 0)
+        elif kind == "qb":
+            nm = f"qb{len(self.params)}"
+            self.params.append(f"{nm}: qubit")
+            i = self.create(0, 0)
+            self.env[nm] = i
+            self.end.append(lambda nm=nm: self.use(self.env[nm]))
+        elif kind in ("ao", "ab"):
+            nm = f"{kind}{len(self.params)}"
+            self.params.append(f"{nm}: array[qubit, 2]" + (" @owned" if kind == "ao" else ""))
+            a = self.create(0, 0)
+            self.use(a)
+            for k in range(2):
+                self.env[f"{nm}[{k}]"] = self.create(0, 0)
+            self.lists[nm] = kind == "ao"
+            if kind == "ab":
+                def fin(nm=nm):
+                    for k in range(2):
+                        self.use(self.env[f"{nm}[{k}]"])
+                    self.use(self.create(0, 0))
+                self.end.append(fin)
+        elif kind in ("so", "sb"):
+            nm = f"{kind}{len(self.params)}"
+            self.params.append(f"{nm}: SQ" + (" @owned" if kind == "so" else ""))
+            a = self.create(0, 0)
+            self.use(a)
+            self.env[f"{nm}.q"] = self.create(0, 0)
+            self.create(1, 1)
+            self.structs[nm] = kind == "so"
+            if kind == "sb":
+                def fin(nm=nm):
+                    self.use(self.env[f"{nm}.q"])
+                    self.use(self.create(0, 0))
+                self.end.append(fin)
+        elif kind == "x":
+            self.params.append(f"x{len(self.params)}: int")
+            self.create(1, 1)
+
+    # ---- statements
+    def pick(self):
+        """a qubit-valued expression: mostly one that is still live"""
+        if not self.env:
+            return None
+        live = sorted(e for e in self.env if self.env[e] not in self.used)
+        if live and self.rng.random() < 0.85:
+            return self.rng.choice(live)
+        return self.rng.choice(sorted(self.env))
+
+    def stmt(self):
+        r = self.rng
+        k = r.choice(["alloc", "gate", "gate", "consume", "measure", "setitem", "append", "setfield", "happly", "eat2"])
+        if k == "alloc":
+            nm = f"q{self.fresh}"
+            self.fresh += 1
+            self.body.append(f"{nm} = qubit()")
+            self.env[nm] = self.create(0, 0)
+            self.touched = True
+        elif k in ("gate", "consume", "measure"):
+            e = self.pick()
+            if e is None:
+                return
+            self.touched = True
+            if k == "gate":
+                self.body.append(f"h({e})")
+                self.ops.append(f"b{self.env[e]}")
+                self.n += 1      # the model's borrow allocates the object of the returned wire
+            elif k == "consume":
+                self.body.append(f"discard({e})")
+                self.use(self.env[e])
+            else:
+                self.body.append(f"m{self.fresh} = measure({e})")
+                self.fresh += 1
+                self.use(self.env[e])
+                self.create(1, 1)
+        elif k == "setitem" and self.lists:
+            nm = r.choice(sorted(self.lists))
+            idx = r.randrange(2)
+            self.body.append(f"{nm}[{idx}] = qubit()")
+            new = self.create(0, 0)
+            self.ops.append(f"m{int(self.lists[nm])}")
+            self.env[f"{nm}[{idx}]"] = new    # the previous element object is no longer reachable by name
+            self.touched = True
+        elif k == "append" and any(self.lists.values()):
+            nm = r.choice(sorted(n for n, f in self.lists.items() if f))
+            self.body.append(f"{nm}.append(qubit())")
+            self.create(0, 0)
+            self.ops.append("m1")
+            self.touched = True
+        elif k == "setfield" and self.structs:
+            nm = r.choice(sorted(self.structs))
+            self.body.append(f"{nm}.q = qubit()")
+            new = self.create(0, 0)
+            self.ops.append(f"m{int(self.structs[nm])}")
+            self.env[f"{nm}.q"] = new
+            self.touched = True
+        elif k in ("happly", "eat2") and self.lists:
+            nm = r.choice(sorted(self.lists))
+            es = [self.env[f"{nm}[{j}]"] for j in range(2)]
+            self.body.append(f"{k}({nm})")
+            for e in es:
+                self.use(e)
+            self.use(self.create(0, 0))
+            if k == "happly":
+                self.use(self.create(0, 0))
+                for e in es:
+                    self.use(self.create(0, 0))
+                    self.ops.append(f"r{e}")
+                    self.used.discard(e)
+            self.touched = True
+
+    def finish(self):
+        r = self.rng
+        if r.random() < 0.7:
+            # mostly-valid bias: consume what this function owns and has not used yet
+            for e in sorted(self.env):
+                borrowed = e.startswith("qb") or e.startswith("ab") or e.startswith("sb")
+                if not borrowed and self.env[e] not in self.used and r.random() < 0.9:
+                    self.body.append(f"discard({e})")
+                    self.use(self.env[e])
+        kind = r.choice(["none", "none", "none", "q", "tuple"])
+        names = sorted(e for e in self.env if "[" not in e and "." not in e) or sorted(self.env)
+        if kind == "q" and names:
+            e = r.choice(names)
+            self.body.append(f"return {e}")
+            self.use(self.env[e])
+            ret = "qubit"
+        elif kind == "tuple" and len(names) >= 1:
+            a, b = r.choice(names), r.choice(names)
+            self.body.append(f"return {a}, {b}")
+            self.use(self.env[a])
+            self.use(self.env[b])
+            self.use(self.create(0, 0))
+            ret = "tuple[qubit, qubit]"
+        else:
+            if not self.body:
+                self.body.append("pass")
+            ret = "None"
+        for f in self.end:
+            f()
+        src = PRELUDE + "@guppy.comptime\ndef f(" + ", ".join(self.params) + f") -> {ret}:\n" + "".join("    " + l + "\n" for l in self.body)
+        return src, "trace " + " ".join(self.ops)
+
+
+def gen_case(rng):
+    g = Gen(rng)
+    for _ in range(rng.choice([0, 1, 1, 2, 2, 3])):
+        g.add_param(rng.choice(["qo", "qb", "qb", "ao", "ab", "so", "sb", "x"]))
+    for _ in range(rng.randrange(0, 6)):
+        g.stmt()
+    # mostly-valid bias: with probability 2/3 consume every still-unused owned local before returning
+    return g.finish() + (g.touched or bool(g.env),)
+
+
+def real_verdict(src):
+    import feed
+    from guppylang_internals.error import GuppyComptimeError, GuppyError
+
+    m = None
+    try:
+        m = feed.load(src)
+        try:
+            m.f.check()
+            feed.lower(m.f)
+            return "ok", ""
+        except (GuppyError, GuppyComptimeError) as e:
+            msg = str(getattr(e, "error", None).msg) if isinstance(e, GuppyError) and hasattr(getattr(e, "error", None), "msg") else str(e)
+            for pat, cls in (("was already used", "alreadyUsed"), ("is leaked", "leaked"), ("owned function argument", "frozen")):
+                if pat in msg:
+                    return cls, msg[:120]
+            return "other:" + feed.err_class(e), msg[:160]
+        except BaseException as e:  # noqa: BLE001
+            return "crash:" + type(e).__name__, str(e)[:160]
+    except BaseException as e:  # noqa: BLE001
+        return "loadfail:" + type(e).__name__, str(e)[:160]
+    finally:
+        if m is not None:
+            feed.unload(m)
+
+
+def list_mutators():
+    """independent oracle for 'mutating list method of this CPython': call every attribute of `list` on a
+    sample list with canonical arguments; mutating = the contents differ afterwards"""
+    args = {"append": (9,), "extend": ([9],), "insert": (0, 9), "pop": (), "remove": (1,), "__setitem__": (0, 9),
+            "__delitem__": (0,), "__iadd__": ([9],), "__imul__": (2,), "__init__": ([9],), "index": (1,), "count": (1,),
+            "__getitem__": (0,), "__contains__": (1,), "__add__": ([9],), "__mul__": (2,), "__rmul__": (2,),
+            "__eq__": ([1],), "__ne__": ([1],), "__lt__": ([1],), "__le__": ([1],), "__gt__": ([1],), "__ge__": ([1],),
+            "__getattribute__": ("append",), "__format__": ("",), "__class_getitem__": (int,), "__setattr__": None,
+            "__delattr__": None, "__reduce_ex__": (2,), "__new__": None, "__init_subclass__": None, "__subclasshook__": None}
+    out = []
+    for name in dir(list):
+        a = args.get(name, ())
+        if a is None:
+            continue
+        xs = [3, 1, 2]
+        try:
+            getattr(xs, name)(*a)
+        except Exception:  # noqa: BLE001
+            pass
+        if xs != [3, 1, 2]:
+            out.append(name)
+    return sorted(out)
+
+
+def frozen_behaviour():
+    """call each mutator on a real frozenlist: must raise GuppyComptimeError and leave it unchanged"""
+    from guppylang_internals.error import GuppyComptimeError
+    from guppylang_internals.tracing.frozenlist import frozenlist
+
+    args = {"append": (9,), "extend": ([9],), "insert": (0, 9), "pop": (), "remove": (1,), "__setitem__": (0, 9),
+            "__delitem__": (0,), "__iadd__": ([9],), "__imul__": (2,), "clear": (), "reverse": (), "sort": ()}
+    res = {}
+    for name, a in args.items():
+        xs = frozenlist([3, 1, 2])
+        try:
+            getattr(xs, name)(*a)
+            r = "no-error"
+        except GuppyComptimeError:
+            r = "rejected"
+        except Exception as e:  # noqa: BLE001
+            r = "other:" + type(e).__name__
+        if list(xs) != [3, 1, 2]:
+            r += "+mutated"
+        res[name] = r
+    return res
+
+
+SPEC_MUTATORS = sorted(["append", "clear", "extend", "insert", "pop", "remove", "reverse", "sort",
+                        "__setitem__", "__delitem__", "__iadd__", "__imul__"])
+
+
+def tie(ctx):
+    # ---- frozenlist: oracle for the fixed list of Spec/C22.lean, and the real class's behaviour
+    muts = [m for m in list_mutators() if m != "__init__"]
+    ctx.extra["cpython_list_mutators"] = muts
+    if muts != SPEC_MUTATORS:
+        ctx.broke(f"Spec/C22.lean mutatingListMethods {SPEC_MUTATORS} is not this CPython's set of mutating list methods {muts}")
+    for name, r in frozen_behaviour().items():
+        ctx.count(["frozenlist", name], nontrivial=True, kind="frozenlist:" + r)
+        if r != "rejected":
+            ctx.violation(f"frozenlist:{name}", f"frozenlist.{name} on a value derived from an owned argument: {r} (expected GuppyComptimeError, unchanged)",
+                          {"method": name, "result": r})
+    # ---- traces
+    cases = []
+    corpus = os.path.join(vlib.VERIF, "corpus", "c22")
+    if os.path.isdir(corpus):
+        for fn in sorted(os.listdir(corpus)):
+            for r in json.load(open(os.path.join(corpus, fn))):
+                cases.append((r["src"], r["ops"], True))
+    if ctx.replay_in and "src" in ctx.replay_in.get("replay", {}):
+        cases.append((ctx.replay_in["replay"]["src"], ctx.replay_in["replay"]["ops"], True))
+    for _ in range(ctx.n(150, 3000)):
+        cases.append(gen_case(ctx.rng))
+    seen, uniq = set(), []
+    for c in cases:
+        if c[0] not in seen:
+            seen.add(c[0])
+            uniq.append(c)
+    model = ctx.driver(DRIVER, [c[1] for c in uniq])
+    for (src, ops, nt), mv in zip(uniq, model):
+        rv, detail = real_verdict(src)
+        body = src[len(PRELUDE):] if src.startswith(PRELUDE) else src
+        ctx.count(body, nontrivial=nt, kind=f"{mv}/{rv.split(':')[0]}")
+        rep = {"src": src, "ops": ops, "model": mv, "real": rv, "detail": detail}
+        if rv.startswith("crash") or rv.startswith("loadfail"):
+            ctx.violation("trace:" + body, f"the tracer crashes ({rv}: {detail}) on\n{body}", rep)
+        elif rv != mv:
+            # oracle: the property's literal reading, independent of the model: recomputed from the ops
+            orc = oracle(ops)
+            if rv != orc:
+                ctx.violation("trace:" + body, f"ownership verdict of the real tracer is `{rv}` ({detail}) but the property requires `{orc}` for\n{body}", rep)
+            ctx.broke(f"correspondence Model/TraceOwn.lean vs tracer: model {mv}, real {rv} on ops `{ops}`")
+
+
+def oracle(line):
+    """Literal reading of the property on the abstract trace, written independently of the Lean model:
+    first event wins — second use of a non-copyable value since it was created / handed back; an in-place
+    mutation of a frozen value; at the end a non-droppable value that was created / handed back and not used."""
+    objs = []   # [copyable, droppable, uses]
+    for t in line.split()[1:]:
+        k, a = t[0], t[1:]
+        if k == "c":
+            objs.append([a[0] == "1", a[1] == "1", 0])
+        elif k in "ub":
+            o = objs[int(a)]
+            if o[2] >= 1 and not o[0]:
+                return "alreadyUsed"
+            o[2] += 1
+            if k == "b":
+                o[2] = 0
+                objs.append([o[0], o[1], 1])
+        elif k == "r":
+            objs[int(a)][2] = 0
+        elif k == "m" and a == "1":
+            return "frozen"
+    return "leaked" if any(not o[1] and o[2] == 0 for o in objs) else "ok"
+
+
 if __name__ == "__main__":
     vlib.main(sys.modules[__name__])
